@@ -142,3 +142,20 @@ Definition fmt_g14 (q : Q) : string :=
     let m := round_scaled a d (Z.of_N sig_digits - 1 - e) in
     let '(m, e) := if (m =? pow10 sig_digits)%Z then (pow10 (sig_digits - 1), (e + 1)%Z) else (m, e) in
     (if (n <? 0)%Z then "-" else "") ++ layout_g (strip_trailing_zeros (z_to_dec m)) e.
+
+(* ---- Lua 5.3: integer and float subtypes ---- *)
+
+Fixpoint looks_like_int (s : string) : bool :=
+  match s with
+  | EmptyString => true
+  | String c s' => (is_digit c || Ascii.eqb c "-"%char) && looks_like_int s'
+  end.
+
+(* lua_Number2str + the ".0" that tostringbuff adds when the text looks like an integer *)
+Definition fmt_float53 (q : Q) : string :=
+  let s := fmt_g14 q in if looks_like_int s then s ++ ".0" else s.
+
+(* number -> string.  d53: Lua 5.3 dialect; fl: float subtype (always false in the LuaJIT dialect, where
+   every number prints with %.14g).  64-bit wrap-around of integers is out of scope. *)
+Definition fmt_num (d53 fl : bool) (q : Q) : string :=
+  if d53 then (if fl then fmt_float53 q else z_to_dec (Qnum q)) else fmt_g14 q.
